@@ -25,6 +25,7 @@ Definition qos_ok (p : pc) : Prop :=
   match p with
   | A_tail _ q _ | A_acq q _ | A_xchg _ q _ => 0 <= q < 8
   | A_probe q fl | A_wake q fl => 0 <= q < 8 /\ (fl = 1 \/ fl = 3)
+  | W_unlock _ d => d = 0 \/ d = 1
   | _ => True
   end.
 
@@ -756,4 +757,651 @@ Proof.
   rewrite andb_true_r in A. apply andb_false_iff in A. destruct A as [A|A].
   - apply Z.ltb_ge in A. right. lia.
   - apply negb_false_iff, Z.eqb_eq in A. left. exact A.
+Qed.
+
+(* _dispatch_queue_drain_try_unlock commits only with DIRTY clear; when done it leaves it clear *)
+Lemma W_unlock_facts W s t op done new ret : Inv W s -> pcs s t = W_unlock op done ->
+  f_dispatch_queue_drain_try_unlock 0 op done (st s) = Commit new ret ->
+  dirty s = 0 /\ (nz done = true -> forall s2, st s2 = new -> dirty s2 = 0).
+Proof.
+  intros HI Hpc Hs. inv_pc HI t Hpc. destruct Hi as (Hop & HpU).
+  pose proof HI as (HW & (r & G) & T). pose proof (g_wf _ _ _ G) as Wf. pose proof Wf as Wf'. unfold wfr in Wf'.
+  pose proof (g_enq _ _ _ G) as [Henq Hrq]. pose proof (g_hi _ _ _ G) as Hhi.
+  pose proof (g_wq _ _ _ G) as Hwq. pose proof (g_ib _ _ _ G) as Hib. pose proof (CLane_proofs.U_nonneg s) as Un.
+  pose proof (dw_range W s r G) as Dr.
+  destruct (T t) as [_ _ T3 _ _ _]. rewrite Hpc in T3. cbn [toks] in T3.
+  assert (Tk : tokh s = Some t) by (apply T3; reflexivity). rewrite Tk in Henq. assert (E1 : f_enq r = 1) by lia.
+  assert (Sub : exists r0, wfr r0 /\ u64 (enc r - op) = enc r0 /\ f_d r0 = f_d r).
+  { destruct Hop as (d & b & -> & Hd & [(-> & Bm & ->)|(-> & Bm & -> & Pd)]).
+    - destruct (g_bm _ _ _ G Bm) as (_ & Dw & U0 & P0). rewrite Bm in Hib. rewrite Dw, U0, P0 in Hwq.
+      exists (mk (f_owner r) (f_tr r) 0 (f_mq r) (f_ov r) (f_role r) (f_em r) (f_d r) (f_pb r) (4096 - W) 0 (f_hi r)).
+      split; [wf_mk|]. split; [|reflexivity].
+      rewrite !enc_linear. unfold mk, ENQUEUED, INTERVAL, IN_BARRIER. cbn [f_owner f_tr f_enq f_mq f_ov f_role f_em f_d f_pb f_wq f_ib f_hi].
+      rewrite E1, Hib. rewrite u64_id'' by lia. lia.
+    - rewrite Bm in Hib.
+      exists (mk (f_owner r) (f_tr r) 0 (f_mq r) (f_ov r) (f_role r) (f_em r) (f_d r) (f_pb r) (f_wq r - dw s) 0 (f_hi r)).
+      split; [wf_mk|]. split; [|reflexivity].
+      rewrite !enc_linear. unfold mk, ENQUEUED, INTERVAL, IN_BARRIER. cbn [f_owner f_tr f_enq f_mq f_ov f_role f_em f_d f_pb f_wq f_ib f_hi].
+      rewrite E1, Hib. rewrite u64_id'' by lia. lia. }
+  destruct Sub as (r0 & W0 & E0 & F8). pose proof W0 as W0'. unfold wfr in W0'.
+  rewrite (dirty_st s r (g_enc _ _ _ G) Wf).
+  rewrite (g_enc _ _ _ G) in Hs. rewrite (unlock_fields_w r r0) in Hs by assumption.
+  destruct (Z.eqb_spec (f_d r) 1) as [Hd|Hd]; [discriminate|].
+  assert (Nw : forall a b c d, Commit a b = Commit c d -> a = c) by (intros; congruence). apply Nw in Hs. clear Nw. subst new.
+  split; [lia|]. intros Dn s2 E2. rewrite Dn in E2.
+  erewrite (dirty_st s2 _ E2); [fcbn; lia|wf_mk].
+Qed.
+
+(* ---- every step ---- *)
+Ltac fld := gcbn; reflexivity.
+Ltac side Hpc :=
+  rewrite ?Hpc;
+  repeat (match goal with
+   | |- context [match ?l with [] => _ | _ :: _ => _ end] => destruct l eqn:?
+   | |- context [if ?c then _ else _] => destruct c eqn:?
+   | |- context [after ?k] => is_var k; destruct k
+   | |- context [dn_cont _ _ _] => unfold dn_cont end);
+  cbn [pusher past_look gives_up waker wait_item hand qos_ok ret_item after is_nil];
+  intros; try discriminate; try reflexivity; try tauto; auto; try (right; apply is_nil_true; assumption).
+
+Ltac fr3 t H3 T0 Hpc :=
+  eapply (frame3 _ _ t _ H3 T0);
+    [ unfold same3; gcbn; repeat split; reflexivity | gcbn; reflexivity | side Hpc | side Hpc | side Hpc | side Hpc | side Hpc
+    | side Hpc | side Hpc | side Hpc ].
+Ltac ok3 W t HI H3 T0 Hpc :=
+  eapply (owner_keep W _ _ t _ HI H3 T0);
+    [ rewrite Hpc; reflexivity | gcbn; reflexivity | gcbn; reflexivity | gcbn; reflexivity | gcbn; reflexivity | gcbn; reflexivity
+    | side Hpc | side Hpc | side Hpc | side Hpc | side Hpc | side Hpc | side Hpc ].
+Lemma gstep_preserves3 W s t s' : Inv W s -> Inv2 s -> Inv3 s -> valid_tid t -> gstep W s t = Some s' -> Inv3 s'.
+Proof.
+  intros HI H2 H3 Vt Hs. assert (HI' : Inv W s') by (eapply gstep_preserves; eassumption).
+  assert (T0 : t <> 0) by (unfold valid_tid in Vt; lia).
+  pose proof (k_qos s H3 t) as Q. pose proof Hs as Hs0.
+  destruct (pcs s t) eqn:Hpc; unfold gstep in Hs; rewrite Hpc in Hs; cbn [qos_ok] in Q.
+  all: lazy beta iota zeta in Hs; try discriminate Hs.
+  all: try (solve [gcases Hs; subst s'; fr3 t H3 T0 Hpc]).
+  all: try (solve [gcases Hs; subst s'; ok3 W t HI H3 T0 Hpc]).
+  - (* S_rsv *) gcases Hs; subst s'; [|fr3 t H3 T0 Hpc]. pose proof (rsv_dirty W s t tl _ HI Hpc Hs0) as Hd.
+    eapply (plain_step s _ t _ H3 T0); try fld; try (rewrite Hpc; reflexivity); try reflexivity; try (solve [side Hpc]).
+    + intros _. right; right; left. unfold U. gcbn. cbn [length]. lia.
+    + intros _. split; [intros X; rewrite Hd; exact X|]. split; [unfold U; gcbn; cbn [length]; lia|rewrite Hpc; discriminate].
+    + intros _. right; right; right. unfold U. gcbn. cbn [length]. lia.
+  - (* NBC *) destruct (NBC_facts W s t s' HI Vt Hpc Hs0) as [Fa Fb].
+    pose proof HI as (_ & _ & T). destruct (T t) as [T1 _ _ _ _ _]. rewrite Hpc in T1. cbn [holds] in T1.
+    assert (Hin : In t (holders s)) by (apply T1; auto).
+    assert (UL : Z.of_nat (length (remove_z t (holders s))) = Z.of_nat (length (holders s)) - 1) by (apply remove_z_length; exact Hin).
+    assert (U1 : 1 <= U s) by (unfold U; destruct (holders s); [destruct Hin|cbn [length]; lia]).
+    gcases Hs; subst s'.
+    + assert (LN : lockh s = None).
+      { eapply (lock_taken W s _ t HI HI'); try fld; try (rewrite Hpc; reflexivity).
+        - intros u Ne. gcbn. apply upd_other. exact Ne.
+        - apply (nowait_grant W s t HI). rewrite Hpc. reflexivity. }
+      eapply (plain_step s _ t _ H3 T0); try fld; try (rewrite Hpc; reflexivity); try reflexivity; try (solve [side Hpc]).
+      * intros _. right; right; right; left. gcbn. discriminate.
+      * intros (u & _ & X). exfalso. exact (free_no_owner W s u HI LN X).
+      * intros _. left. gcbn. discriminate.
+    + eapply (plain_step s _ t _ H3 T0); try fld; try (rewrite Hpc; reflexivity); try reflexivity; try (solve [side Hpc]).
+      * intros _. right; left. gcbn. discriminate.
+      * intros (u & _ & X). assert (LS : lockh s <> None) by (destruct (owner_facts W s u HI X) as (L & _); congruence).
+        pose proof (Fa LS) as D1. split; [auto|]. split; [auto|]. rewrite Hpc. discriminate.
+      * intros _. right; right; left. gcbn. discriminate.
+    + assert (Key : lockh s <> None \/ 2 <= U s).
+      { destruct (lockh s) eqn:L; [left; discriminate|right]. destruct (Z.eq_dec (U s) 1) as [E1|E1]; [|lia].
+        pose proof (Fb eq_refl E1) as X. gcbn in X. congruence. }
+      eapply (plain_step s _ t _ H3 T0); try fld; try (rewrite Hpc; reflexivity); try reflexivity; try (solve [side Hpc]).
+      * intros _. destruct Key as [K|K]; [right; right; right; left; gcbn; exact K|]. right; right; left. unfold U in *. gcbn. lia.
+      * intros (u & _ & X). assert (LS : lockh s <> None) by (destruct (owner_facts W s u HI X) as (L & _); congruence).
+        pose proof (Fa LS) as D1. split; [auto|]. split; [auto|]. rewrite Hpc. discriminate.
+      * intros _. destruct Key as [K|K]; [left; gcbn; exact K|]. right; right; right. unfold U in *. gcbn. lia.
+  - (* X_rootpush *) gcases Hs; subst s'. pose proof HI as (_ & (r & G) & _). pose proof (g_enq _ _ _ G) as [_ Rq].
+    eapply (plain_step s _ t _ H3 T0); try fld; try (rewrite Hpc; reflexivity); try (solve [side Hpc]).
+    + intros _. left. gcbn. lia.
+    + intros _. split; [intros X; rewrite <- X; apply dirty_same; reflexivity|]. split; [unfold U; gcbn; lia|rewrite Hpc; discriminate].
+    + intros _. right; left. gcbn. lia.
+  - (* B_acq *) gcases Hs; subst s'; [|fr3 t H3 T0 Hpc].
+    assert (LN : lockh s = None).
+    { eapply (lock_taken W s _ t HI HI'); try fld; try (rewrite Hpc; reflexivity).
+      - intros u Ne. gcbn. apply upd_other. exact Ne.
+      - apply (nowait_grant W s t HI). rewrite Hpc. reflexivity. }
+    eapply (plain_step s _ t _ H3 T0); try fld; try (rewrite Hpc; reflexivity); try reflexivity; try (solve [side Hpc]).
+    + intros _. right; right; right; left. gcbn. discriminate.
+    + intros (u & _ & X). exfalso. exact (free_no_owner W s u HI LN X).
+    + intros _. left. gcbn. discriminate.
+  - (* BC_class *)
+    assert (Ow : owns (pcs s t) = true) by (rewrite Hpc; reflexivity).
+    assert (NoOth : (exists u, u <> t /\ owns (pcs s u) = true) -> False).
+    { intros (u & Ne & X). exact (other_owner_absurd W s t u HI Ow Ne X). }
+    match type of Hs with match ?c with _ => _ end = _ => destruct c as [new ret| | |] eqn:Hcl; try discriminate Hs end.
+    2: { apply Some_inj in Hs. subst s'. fr3 t H3 T0 Hpc. }
+    destruct (BC_class_facts W s t k enq new ret HI Hpc Hcl) as [F0 F1].
+    gcases Hs; subst s'.
+    + eapply (plain_step s _ t _ H3 T0); try fld; try (rewrite Hpc; reflexivity); try reflexivity; try (solve [side Hpc]).
+      * intros _. right; left. gcbn. discriminate.
+      * intros _. right; right; left. gcbn. discriminate.
+    + eapply (plain_step s _ t _ H3 T0); try fld; try (rewrite Hpc; reflexivity); try reflexivity; try (solve [side Hpc]).
+      * intros NE. destruct (Z.eq_dec enq 0) as [E0|E0].
+        -- destruct (F0 E0) as [D0 _]. destruct (k_look s H3 t) as [X|(u & X)]; [rewrite Hpc; cbn; rewrite E0; reflexivity|exact NE|lia|].
+           right; right; right; right. exists u. gcbn. rewrite upd_other; [exact X|]. intros ->. rewrite Hpc in X. discriminate.
+        -- assert (Hch : changed (st s) new enq = false).
+           { apply andb_false_iff in Hc. destruct Hc as [Hc|Hc]; [|exact Hc]. apply negb_false_iff, Z.eqb_eq in Hc. contradiction. }
+           destruct (F1 E0 Hch) as [X|X]; [left; gcbn; exact X|right; left; gcbn; exact X].
+      * intros D1. destruct (Z.eq_dec enq 0) as [E0|E0].
+        -- destruct (F0 E0) as [_ D0]. rewrite D0 in D1 by fld. discriminate.
+        -- assert (Hch : changed (st s) new enq = false).
+           { apply andb_false_iff in Hc. destruct Hc as [Hc|Hc]; [|exact Hc]. apply negb_false_iff, Z.eqb_eq in Hc. contradiction. }
+           destruct (F1 E0 Hch) as [X|X]; [right; left; gcbn; exact X|right; right; left; gcbn; exact X].
+  - (* DBW_pop *) gcases Hs; subst s'. inv_pc HI t Hpc. destruct Hi as (_ & _ & Hb & Hw). unfold head_wt in Hw. rewrite Hl in Hw.
+    eapply (pop_step3 W s _ t _ i l HI H3 T0); try fld; try (rewrite Hpc; reflexivity); try exact Hl; try (solve [side Hpc]).
+    right; right. split; [exact Hw|]. split; [fld|eauto].
+  - (* DBW_xfer *) gcases Hs; subst s'.
+    assert (Ow : owns (pcs s t) = true) by (rewrite Hpc; reflexivity).
+    assert (NoOth : forall v, v <> t -> owns (pcs s v) = true -> False) by (intros v Ne X; exact (other_owner_absurd W s t v HI Ow Ne X)).
+    assert (X : forall s1, lst s1 = lst s -> woken s1 = woken s -> grant s1 = upd (grant s) u GOwner -> lockh s1 = Some u ->
+                 pcs s1 = pcs s -> Inv3 (set_pc s1 t (DBW_wake k u))).
+    { intros s1 A1 A2 A3 A4 A5.
+      apply (master s (set_pc s1 t (DBW_wake k u)) t (DBW_wake k u) H3 T0); gcbn; rewrite ?A1, ?A2, ?A3, ?A4, ?A5; try reflexivity.
+      - intros _. unfold resp. gcbn. rewrite A4. right; right; right; left. discriminate.
+      - cbn. discriminate.
+      - intros (v & Ne & Y). destruct (NoOth v Ne (past_look_owns _ Y)).
+      - cbn. discriminate.
+      - intros (v & Ne & Y). destruct (NoOth v Ne (gives_up_owns _ Y)).
+      - intros v Y. unfold upd in Y. destruct (Z.eqb_spec v u) as [E|E]; [right; left; cbn; apply Z.eqb_eq; symmetry; exact E|left; exact Y].
+      - intros v Y. left. exact Y.
+      - rewrite Hpc. intros v Y. discriminate.
+      - rewrite Hpc. intros j b Y G. left. split; [exact Y|]. unfold upd in G. destruct (t =? u); [discriminate|exact G].
+      - intros v _ G. unfold upd in G. destruct (v =? u); [discriminate|exact G].
+      - intros x Hx _. left. exact Hx.
+      - rewrite Hpc. intros k0 e0 u0 i0 Y. injection Y as -> -> -> ->. left. rewrite upd_same. discriminate.
+      - intros _. left. discriminate.
+      - intros op Y. discriminate Y.
+      - intros _ x l Y. eauto. }
+    destruct (enqb =? 0); apply X; fld.
+  - (* DBW_wake *) gcases Hs; subst s'.
+    eapply (wake_step3 s _ t _ u H3 T0); try fld; try (rewrite Hpc; reflexivity); try (solve [side Hpc]).
+    rewrite Hpc. cbn. intros v Y. apply Z.eqb_eq in Y. auto.
+  - (* DN_pop *) inv_pc HI t Hpc. destruct Hi as (_ & _ & _ & _ & Hb).
+    gcases Hs; subst s'.
+    + eapply (pop_step3 W s _ t _ i l HI H3 T0); try fld; try (rewrite Hpc; reflexivity); try exact Hl; try (solve [side Hpc]).
+      * left. apply Z.eqb_eq in Hc. split; [exact Hc|fld].
+      * unfold dn_cont. destruct l; cbn; [reflexivity|]. destruct (i_bar i0); cbn; discriminate.
+    + eapply (pop_step3 W s _ t _ i l HI H3 T0); try fld; try (rewrite Hpc; reflexivity); try exact Hl; try (solve [side Hpc]).
+      * right; left. apply Z.eqb_neq in Hc. split; [exact Hc|]. split; [fld|]. cbn. apply Z.eqb_refl.
+      * cbn. destruct l; cbn; [reflexivity|]. destruct (i_bar i0); cbn; discriminate.
+  - (* DN_wake *) gcases Hs; subst s'.
+    eapply (wake_step3 s _ t _ u H3 T0); try fld; try (rewrite Hpc; reflexivity); try (solve [side Hpc]).
+    + rewrite Hpc. cbn. intros v Y. apply Z.eqb_eq in Y. auto.
+  - (* DN_fin *)
+    assert (Ow : owns (pcs s t) = true) by (rewrite Hpc; reflexivity).
+    assert (NoOth : (exists u, u <> t /\ owns (pcs s u) = true) -> False).
+    { intros (u & Ne & X). exact (other_owner_absurd W s t u HI Ow Ne X). }
+    match type of Hs with match ?c with _ => _ end = _ => destruct c as [new ret| |ex|] eqn:Hcl; try discriminate Hs end.
+    2: { apply Some_inj in Hs. subst s'. fr3 t H3 T0 Hpc. }
+    match type of Hs with (if ?c then _ else _) = _ => destruct c eqn:Hib end.
+    { apply Some_inj in Hs. subst s'. ok3 W t HI H3 T0 Hpc. }
+    destruct (DN_fin_facts W s t k ow nx new ret HI Vt Hpc Hcl Hib) as [F0 F1].
+    gcases Hs; subst s'.
+    + eapply (plain_step s _ t _ H3 T0); try fld; try (rewrite Hpc; reflexivity); try reflexivity; try (solve [side Hpc]).
+      * intros _. right; left. gcbn. discriminate.
+      * intros _. right; right; left. gcbn. discriminate.
+    + eapply (plain_step s _ t _ H3 T0); try fld; try (rewrite Hpc; reflexivity); try reflexivity; try (solve [side Hpc]).
+      * intros NE. destruct (Z.eq_dec nx 0) as [N0|N0].
+        -- destruct (F0 N0) as [D0 _]. destruct (k_look s H3 t) as [X|(u & X)]; [rewrite Hpc; cbn; rewrite N0; reflexivity|exact NE|lia|].
+           right; right; right; right. exists u. gcbn. rewrite upd_other; [exact X|]. intros ->. rewrite Hpc in X. discriminate.
+        -- right; right; left. unfold U in *. gcbn. exact (F1 N0).
+      * intros D1. destruct (Z.eq_dec nx 0) as [N0|N0].
+        -- destruct (F0 N0) as [_ D0]. rewrite D0 in D1 by fld. discriminate.
+        -- right; right; right. unfold U in *. gcbn. exact (F1 N0).
+  - (* DN_xor *) gcases Hs; subst s'.
+    eapply (owner_keep W _ _ t _ HI H3 T0); try fld; try (rewrite Hpc; reflexivity).
+    + unfold dn_cont. destruct (lst s) as [|x l]; cbn; [reflexivity|]. destruct (i_bar x); cbn; discriminate.
+    + unfold dn_cont. destruct (lst s) as [|x l]; cbn; [discriminate|]. destruct (i_bar x); cbn; discriminate.
+    + rewrite Hpc. cbn. discriminate.
+    + rewrite Hpc. unfold dn_cont. destruct (lst s) as [|x l]; cbn; [reflexivity|]. destruct (i_bar x); cbn; reflexivity.
+    + unfold dn_cont. destruct (lst s) as [|x l]; cbn; [discriminate|]. destruct (i_bar x); cbn; discriminate.
+    + unfold dn_cont. destruct (lst s) as [|x l]; cbn; [exact I|]. destruct (i_bar x); cbn; exact I.
+  - (* A_acq *)
+    match type of Hs with match ?c with _ => _ end = _ => destruct c as [new ret|r0 ex| |] eqn:Hcl; try discriminate Hs end.
+    2: { apply Some_inj in Hs. subst s'. fr3 t H3 T0 Hpc. }
+    apply Some_inj in Hs. subst s'.
+    assert (Hd : forall s2, st s2 = new -> dirty s2 = dirty s) by (intros s2 E2; exact (acq_dirty W s s2 new ret HI Hcl E2)).
+    eapply (plain_step s _ t _ H3 T0); try fld; try (rewrite Hpc; reflexivity); try reflexivity; try (solve [side Hpc]).
+    + intros _. right; right; left. unfold U. gcbn. cbn [length]. lia.
+    + intros _. split; [intros X; rewrite Hd by fld; exact X|]. split; [unfold U; gcbn; cbn [length]; lia|rewrite Hpc; discriminate].
+    + intros _. right; right; right. unfold U. gcbn. cbn [length]. lia.
+  - (* A_xchg *) gcases Hs; subst s'.
+    eapply (push_step3 s _ t _ _ H3 T0); try fld; try (rewrite Hpc; reflexivity); try (solve [side Hpc]).
+    intros E. rewrite E. reflexivity.
+  - (* A_wake *) destruct Q as [Q1 Q2].
+    match type of Hs with (if ?c then _ else _) = _ => destruct c; [|discriminate Hs] end.
+    match type of Hs with match ?c with _ => _ end = _ => destruct c as [new ret|r0 ex| |] eqn:Hcl; try discriminate Hs end.
+    2: { apply Some_inj in Hs. subst s'. destruct Q2 as [-> | ->]; [fr3 t H3 T0 Hpc|].
+         destruct (A_wake_dirty_commits W s q HI Q1) as (n1 & r1 & E1). congruence. }
+    destruct (A_wake_facts W s q fl new ret HI Q1 Q2 Hcl) as (F3 & F1 & Fe).
+    assert (Dm : forall s2, st s2 = new -> (dirty s = 1 -> dirty s2 = 1) /\ (pusher (pcs s t) = true -> dirty s2 = 1)).
+    { intros s2 E2. rewrite Hpc. cbn [pusher]. destruct Q2 as [-> | ->].
+      - rewrite (F1 eq_refl s2 E2). split; [auto|discriminate].
+      - rewrite (F3 eq_refl s2 E2). auto. }
+    gcases Hs; subst s'.
+    + eapply (plain_step s _ t _ H3 T0); try fld; try (rewrite Hpc; reflexivity); try reflexivity; try (solve [side Hpc]).
+      * intros _. right; left. gcbn. discriminate.
+      * intros _. destruct (Dm (set_pc (set_tokh (set_st s new) (Some t)) t (X_rootpush RIdle)) eq_refl) as [D1 D2].
+        split; [exact D1|]. split; [unfold U; gcbn; lia|auto].
+      * intros _. right; right; left. gcbn. discriminate.
+    + eapply (plain_step s _ t _ H3 T0); try fld; try (rewrite Hpc; reflexivity); try reflexivity; try (solve [side Hpc]).
+      * intros _. destruct (Fe eq_refl) as [X|[X|X]]; unfold resp; gcbn; auto.
+      * intros _. destruct (Dm (set_pc (set_st s new) t Idle) eq_refl) as [D1 D2].
+        split; [exact D1|]. split; [unfold U; gcbn; lia|auto].
+  - (* SW_xchg *) gcases Hs; subst s'.
+    eapply (push_step3 s _ t _ _ H3 T0); try fld; try (rewrite Hpc; reflexivity); try (solve [side Hpc]).
+    + intros E. rewrite E. reflexivity.
+    + right. exists b. cbn [i_id i_wt]. split; [destruct (is_nil (lst s)); reflexivity|reflexivity].
+  - (* SW_rmw *)
+    match type of Hs with match ?c with _ => _ end = _ => destruct c as [new ret| | |] eqn:Hcl; try discriminate Hs end.
+    match type of Hs with (if ?c then _ else _) = _ => destruct c eqn:Hib end; apply Some_inj in Hs; subst s'.
+    + pose proof (SW_rmw_take W s t new ret HI Vt Hcl Hib) as LN.
+      eapply (plain_step s _ t _ H3 T0); try fld; try (rewrite Hpc; reflexivity); try reflexivity; try (solve [side Hpc]).
+      * intros _. right; right; right; left. gcbn. discriminate.
+      * intros (u & _ & X). exfalso. exact (free_no_owner W s u HI LN X).
+      * intros _. left. gcbn. discriminate.
+    + destruct (SW_rmw_facts W s t new ret HI Vt Hcl Hib) as [Fd Fr].
+      eapply (plain_step s _ t _ H3 T0); try fld; try (rewrite Hpc; reflexivity); try reflexivity; try (solve [side Hpc]).
+      intros _. destruct Fr as [X|X]; unfold resp, U in *; gcbn; auto.
+  - (* SW_wait *) gcases Hs; subst s';
+      (eapply (consume_step3 s _ t _ H3 T0); try fld; try (rewrite Hpc; reflexivity); try reflexivity; try (solve [side Hpc])).
+  - (* W_lock *)
+    match type of Hs with match ?c with _ => _ end = _ => destruct c as [new owned| |ex|] eqn:Hcl; try discriminate Hs end.
+    2: { apply Some_inj in Hs. subst s'. fr3 t H3 T0 Hpc. }
+    match type of Hs with (if ?c then _ else _) = _ => destruct c eqn:Hz end; apply Some_inj in Hs; subst s'.
+    + apply Z.eqb_eq in Hz. subst owned. destruct (W_lock_facts W s t floor new HI Vt Hpc Hcl) as [Fr Fd].
+      eapply (plain_step s _ t _ H3 T0); try fld; try (rewrite Hpc; reflexivity); try reflexivity; try (solve [side Hpc]).
+      * intros _. destruct Fr as [X|X]; unfold resp, U in *; gcbn; auto.
+      * intros _. assert (Fd' : dirty (set_pc (set_tokh (set_st s new) None) t Idle) = dirty s) by (apply Fd; reflexivity).
+        rewrite Fd'. split; [auto|]. split; [unfold U; gcbn; lia|rewrite Hpc; discriminate].
+    + assert (LN : lockh s = None).
+      { eapply (lock_taken W s _ t HI HI'); try fld; try (rewrite Hpc; reflexivity).
+        - intros u Ne. gcbn. apply upd_other. exact Ne.
+        - apply (nowait_grant W s t HI). rewrite Hpc. reflexivity. }
+      eapply (plain_step s _ t _ H3 T0); try fld; try (rewrite Hpc; reflexivity); try reflexivity; try (solve [side Hpc]).
+      * intros _. right; right; right; left. gcbn. discriminate.
+      * intros (u & _ & X). exfalso. exact (free_no_owner W s u HI LN X).
+      * intros _. left. gcbn. discriminate.
+  - (* W_head *) gcases Hs; subst s'.
+    eapply (frame3 _ _ t _ H3 T0);
+      [ unfold same3; gcbn; repeat split; reflexivity | gcbn; reflexivity | side Hpc | side Hpc | | side Hpc | side Hpc | side Hpc | | side Hpc ].
+    + destruct (i_bar i) eqn:Bi.
+      * side Hpc.
+      * destruct ((owned =? 0) && negb (i_wt i =? 0) && negb (nz (f_dq_state_has_sync_width_room (st s) W))) eqn:C; [|side Hpc].
+        intros _. right; right. apply andb_true_iff in C. destruct C as [C C3]. apply andb_true_iff in C. destruct C as [C1 C2].
+        apply Z.eqb_eq in C1. subst owned. apply negb_true_iff in C3. exact (no_room_U W s t op HI Hpc C3).
+    + intros op' X. right. exists i, l. split; [exact Hl|].
+      destruct (i_bar i); [|repeat (match type of X with context [if ?c then _ else _] => destruct c end); discriminate X].
+      destruct (negb (owned =? IN_BARRIER)); [discriminate X|]. destruct (i_wt i =? 0) eqn:Z0; [apply Z.eqb_eq; exact Z0|cbn [negb] in X; discriminate X].
+  - (* W_upg *)
+    match type of Hs with match ?c with _ => _ end = _ => destruct c as [new ret| | |] eqn:Hcl; try discriminate Hs end.
+    match type of Hs with (if ?c then _ else _) = _ => destruct c eqn:Hz end; apply Some_inj in Hs; subst s'.
+    + ok3 W t HI H3 T0 Hpc.
+    + pose proof (W_upg_fail W s t op owned new ret HI Hpc Hcl Hz) as U1.
+      eapply (owner_keep W _ _ t _ HI H3 T0); try fld; try (rewrite Hpc; reflexivity); try (solve [side Hpc]).
+  - (* W_acq *)
+    match type of Hs with match ?c with _ => _ end = _ => destruct c as [new ret|r0 ex| |] eqn:Hcl; try discriminate Hs end;
+      apply Some_inj in Hs; subst s'.
+    + ok3 W t HI H3 T0 Hpc.
+    + pose proof (W_acq_fail W s t op r0 ex HI Hpc Hcl) as F.
+      eapply (frame3 _ _ t _ H3 T0);
+      [ unfold same3; gcbn; repeat split; reflexivity | gcbn; reflexivity | side Hpc | side Hpc | | side Hpc | side Hpc | side Hpc | side Hpc | side Hpc ].
+      intros _. right. exact F.
+  - (* W_popn *) gcases Hs; subst s'.
+    + eapply (pop_step3 W s _ t _ i l HI H3 T0); try fld; try (rewrite Hpc; reflexivity); try exact Hl; try (solve [side Hpc]).
+      left. apply Z.eqb_eq in Hc. split; [exact Hc|fld].
+    + eapply (pop_step3 W s _ t _ i l HI H3 T0); try fld; try (rewrite Hpc; reflexivity); try exact Hl; try (solve [side Hpc]).
+      right; left. apply Z.eqb_neq in Hc. split; [exact Hc|]. split; [fld|]. cbn. apply Z.eqb_refl.
+  - (* W_wake *) gcases Hs; subst s'.
+    eapply (wake_step3 s _ t _ u H3 T0); try fld; try (rewrite Hpc; reflexivity); try (solve [side Hpc]).
+    rewrite Hpc. cbn. intros v Y. apply Z.eqb_eq in Y. auto.
+  - (* W_popb *) gcases Hs; subst s'. destruct (k_popb s H3 t op Hpc) as (x0 & l0 & E0 & Z0). rewrite Hl in E0. injection E0 as <- <-.
+    eapply (pop_step3 W s _ t _ i l HI H3 T0); try fld; try (rewrite Hpc; reflexivity); try exact Hl; try (solve [side Hpc]).
+  - (* W_unlock *)
+    assert (Ow : owns (pcs s t) = true) by (rewrite Hpc; reflexivity).
+    assert (NoOth : (exists u, u <> t /\ owns (pcs s u) = true) -> False).
+    { intros (u & Ne & X). exact (other_owner_absurd W s t u HI Ow Ne X). }
+    match type of Hs with match ?c with _ => _ end = _ => destruct c as [new ret|r0 ex| |] eqn:Hcl; try discriminate Hs end;
+      apply Some_inj in Hs; subst s'; [|fr3 t H3 T0 Hpc].
+    destruct (W_unlock_facts W s t op done new ret HI Hpc Hcl) as [D0 Dd].
+    eapply (plain_step s _ t _ H3 T0); try fld; try (rewrite Hpc; reflexivity); try reflexivity; try (solve [side Hpc]).
+    + intros NE. destruct Q as [-> | ->].
+      * destruct (k_giveup s H3 t) as [X|X]; [rewrite Hpc; reflexivity|lia|]. right; right; left. unfold U in *. gcbn. exact X.
+      * destruct (k_look s H3 t) as [X|(u & X)]; [rewrite Hpc; reflexivity|exact NE|lia|].
+        right; right; right; right. exists u. gcbn. rewrite upd_other; [exact X|]. intros ->. rewrite Hpc in X. discriminate.
+    + intros D1. destruct Q as [-> | ->].
+      * destruct (k_giveup s H3 t) as [X|X]; [rewrite Hpc; reflexivity|lia|]. right; right; right. unfold U in *. gcbn. exact X.
+      * rewrite Dd in D1 by (reflexivity || fld). discriminate.
+Qed.
+
+Lemma begin_preserves3 W s t c s' : Inv W s -> Inv3 s -> valid_tid t -> begin s t c = Some s' -> Inv3 s'.
+Proof.
+  intros HI H3 Vt Hs. assert (T0 : t <> 0) by (unfold valid_tid in Vt; lia).
+  unfold begin in Hs. destruct (pcs s t) eqn:Hpc; try discriminate Hs. destruct c.
+  - gcases Hs; subst s'. fr3 t H3 T0 Hpc.
+  - gcases Hs; subst s'. fr3 t H3 T0 Hpc.
+  - gcases Hs; subst s'. apply andb_true_iff in Hc. destruct Hc as [Q1 Q2]. apply Z.leb_le in Q1. apply Z.ltb_lt in Q2.
+    fr3 t H3 T0 Hpc.
+  - gcases Hs; subst s'. apply Z.ltb_lt in Hc.
+    assert (ED : dirty (set_pc (set_tokh (set_rootq s (rootq s - 1)) (Some t)) t (W_lock floor)) = dirty s) by (apply dirty_same; reflexivity).
+    eapply (plain_step s _ t _ H3 T0); try fld; try (rewrite Hpc; reflexivity); try reflexivity; try (solve [side Hpc]).
+    + intros _. right; left. gcbn. discriminate.
+    + intros _. rewrite ED. split; [auto|]. split; [unfold U; gcbn; lia|rewrite Hpc; discriminate].
+    + intros _. right; right; left. gcbn. discriminate.
+  - gcases Hs; subst s'. apply mem_z_in in Hc.
+    assert (EU : U (set_pc (set_holders (set_rq s (remove_z i (rq s))) (t :: holders s)) t (R_call i)) = U s).
+    { unfold U. gcbn. cbn [length]. rewrite (remove_z_length i (rq s) Hc). lia. }
+    assert (ED : dirty (set_pc (set_holders (set_rq s (remove_z i (rq s))) (t :: holders s)) t (R_call i)) = dirty s) by (apply dirty_same; reflexivity).
+    eapply (plain_step s _ t _ H3 T0); try fld; try (rewrite Hpc; reflexivity); try reflexivity; try (solve [side Hpc]).
+    + intros NE. destruct (k_resp s H3 NE) as [X|[X|[X|[X|(u & X)]]]]; unfold resp; rewrite ?EU; gcbn; auto.
+      right; right; right; right. exists u. rewrite upd_other; [exact X|]. intros ->. rewrite Hpc in X. discriminate.
+    + intros _. rewrite ED, EU. split; [auto|]. split; [lia|rewrite Hpc; discriminate].
+    + rewrite ED, EU. gcbn. exact (k_dirty s H3).
+Qed.
+
+Lemma Inv3_init W : 2 <= W <= 4094 -> Inv3 (init_state W).
+Proof.
+  intros HW.
+  assert (D0 : dirty (init_state W) = 0).
+  { assert (E : st (init_state W) = enc (mk 0 0 0 0 0 1 0 0 0 (4096 - W) 0 0)).
+    { unfold init_state. gcbn. rewrite enc_linear. unfold INTERVAL, ROLE_BASE_ANON, mk.
+      cbn [f_owner f_tr f_enq f_mq f_ov f_role f_em f_d f_pb f_wq f_ib f_hi]. lia. }
+    rewrite (dirty_st _ _ E); [reflexivity|wf_mk]. }
+  constructor; try (rewrite D0; discriminate); unfold init_state; gcbn; cbn; intros; try discriminate; try contradiction; auto.
+Qed.
+
+Theorem step_preserves3 W s a s' : Inv W s -> Inv2 s -> Inv3 s -> step W s a s' -> Inv3 s'.
+Proof.
+  intros HI H2 H3 Hs. destruct a as [t c|t]; destruct Hs as [Vt Hs].
+  - eapply begin_preserves3; eassumption.
+  - eapply gstep_preserves3; eassumption.
+Qed.
+
+Theorem inv3_reach W s : 2 <= W <= 4094 -> reach W s -> Inv W s /\ Inv2 s /\ Inv3 s.
+Proof.
+  intros HW. apply (invariant_lift _ _ (fun s => Inv W s /\ Inv2 s /\ Inv3 s)).
+  - intros s0 ->. split; [apply Inv_init; exact HW|]. split; [apply Inv2_init|apply Inv3_init; exact HW].
+  - intros s0 a s1 (HI & H2 & H3) Hs. split; [eapply step_preserves; eassumption|].
+    split; [eapply step_preserves2; eassumption|eapply step_preserves3; eassumption].
+Qed.
+
+(* ---- consequences ---- *)
+Lemma gstep_frame W s t s' u : gstep W s t = Some s' -> u <> t -> pcs s' u = pcs s u.
+Proof.
+  intros Hs Ne. unfold gstep in Hs. destruct (pcs s t) eqn:Hpc; lazy beta iota zeta in Hs; try discriminate Hs.
+  all: gcases Hs; subst s'.
+  all: try (destruct (enqb =? 0)).
+  all: gcbn; apply upd_other; exact Ne.
+Qed.
+
+Lemma begin_frame s t c s' u : begin s t c = Some s' -> u <> t -> pcs s' u = pcs s u.
+Proof.
+  intros Hs Ne. unfold begin in Hs. destruct (pcs s t); try discriminate Hs. destruct c; gcases Hs; subst s'; gcbn; apply upd_other; exact Ne.
+Qed.
+
+Lemma nonidle_valid W s : reach W s -> forall t, pcs s t <> Idle -> valid_tid t.
+Proof.
+  apply (invariant_lift _ _ (fun s0 => forall t, pcs s0 t <> Idle -> valid_tid t)).
+  - intros s0 -> t H. exfalso. apply H. reflexivity.
+  - intros s1 a s2 IH St t H. destruct a as [u c|u]; destruct St as [V B]; destruct (Z.eq_dec t u) as [->|N]; try exact V.
+    + rewrite (begin_frame s1 u c s2 t B N) in H. apply IH. exact H.
+    + rewrite (gstep_frame W s1 u s2 t B N) in H. apply IH. exact H.
+Qed.
+
+Definition resting (p : pc) : Prop := p = Idle \/ exists i b, p = SW_wait i b.
+
+(* 4. no stuck state.  A reachable state in which no thread is in the middle of an operation (every thread has returned or
+   is parked in the wait of a sync call), no parked thread can continue, the lane is not on its root queue and no
+   redirected item is pending, is completely drained: the list is empty, nobody is parked, the word is the idle word, and
+   every item ever submitted has finished.  So a barrier (or any item) is never lost, a sync waiter is never forgotten,
+   no width leaks. *)
+Theorem stuck_state_is_drained W s : 2 <= W <= 4094 -> reach W s ->
+  (forall t, resting (pcs s t)) -> (forall t, valid_tid t -> gstep W s t = None) -> rootq s = 0 -> rq s = [] ->
+  lst s = [] /\ (forall t, pcs s t = Idle) /\ lockh s = None /\ holders s = [] /\ tokh s = None /\
+  (forall i, 0 <= i < nextid s -> In i (finished s)) /\
+  (let r := dec (st s) in f_owner r = 0 /\ f_enq r = 0 /\ f_d r = 0 /\ f_pb r = 0 /\ f_ib r = 0 /\ f_wq r = 4096 - W).
+Proof.
+  intros HW R Hrest Hstuck R0 Rq0. destruct (inv3_reach W s HW R) as (HI & H2 & H3).
+  pose proof HI as (_ & (r & G) & T). pose proof H2 as [O OT].
+  assert (NoW : forall v u, waker (pcs s v) u = false) by (intros v u; destruct (Hrest v) as [->|(i & b & ->)]; reflexivity).
+  assert (NoP : forall v, pusher (pcs s v) = false) by (intros v; destruct (Hrest v) as [->|(i & b & ->)]; reflexivity).
+  assert (NoO : forall v, owns (pcs s v) = false) by (intros v; destruct (Hrest v) as [->|(i & b & ->)]; reflexivity).
+  assert (NoH : forall v, holds (pcs s v) = false) by (intros v; destruct (Hrest v) as [->|(i & b & ->)]; reflexivity).
+  assert (NoK : forall v, toks (pcs s v) = false) by (intros v; destruct (Hrest v) as [->|(i & b & ->)]; reflexivity).
+  (* nobody holds a grant: a granted waiter has been woken, so it could continue *)
+  assert (GN : forall t, grant s t = GNone).
+  { intros t. destruct (grant s t) eqn:Eg; [reflexivity| |]; exfalso.
+    all: assert (Gn : grant s t <> GNone) by (rewrite Eg; discriminate).
+    all: destruct (T t) as [_ _ _ T4 _ _]; pose proof (T4 Gn) as Wp.
+    all: destruct (Hrest t) as [E|(i & b & E)]; [rewrite E in Wp; discriminate|].
+    all: assert (Vt : valid_tid t) by (apply (nonidle_valid W s R); rewrite E; discriminate).
+    all: destruct (k_wake s H3 t Gn) as [Wk|(v & Wk)]; [|rewrite NoW in Wk; discriminate].
+    all: pose proof (Hstuck t Vt) as X; unfold gstep in X; rewrite E, Wk, Eg in X; discriminate. }
+  assert (LN : lockh s = None).
+  { destruct (lockh s) as [t|] eqn:L; [|reflexivity]. destruct (T t) as [_ T2 _ _ _ _]. apply T2 in L. rewrite NoO, GN in L.
+    destruct L; discriminate. }
+  assert (HN : holders s = []).
+  { destruct (holders s) as [|t l] eqn:Eh; [reflexivity|]. destruct (T t) as [T1 _ _ _ _ _].
+    assert (X : In t (holders s)) by (rewrite Eh; left; reflexivity). apply T1 in X. rewrite NoH, GN in X. destruct X; discriminate. }
+  assert (KN : tokh s = None).
+  { destruct (tokh s) as [t|] eqn:K; [|reflexivity]. destruct (T t) as [_ _ T3 _ _ _]. apply T3 in K. rewrite NoK in K. discriminate. }
+  assert (U0 : U s = 0) by (unfold U; rewrite HN, Rq0; reflexivity).
+  assert (LE : lst s = []).
+  { destruct (lst s) eqn:El; [reflexivity|]. exfalso.
+    destruct (k_resp s H3) as [X|[X|[X|[X|(u & X)]]]]; [rewrite El; discriminate|lia|contradiction|lia|contradiction|].
+    rewrite NoP in X. discriminate. }
+  assert (AI : forall t, pcs s t = Idle).
+  { intros t. destruct (Hrest t) as [E|(i & b & E)]; [exact E|]. exfalso.
+    destruct (k_item s H3 t i b) as [(x & Hx & _)|(u & k & e & Hu)]; [rewrite E; reflexivity|apply GN| |].
+    - rewrite LE in Hx. exact Hx.
+    - destruct (Hrest u) as [E'|(i' & b' & E')]; rewrite E' in Hu; discriminate. }
+  split; [exact LE|]. split; [exact AI|]. split; [exact LN|]. split; [exact HN|]. split; [exact KN|]. split.
+  - intros i Hi. assert (Ai : acquired s i).
+    { split; [exact Hi|]. destruct (In_dec Z.eq_dec i (pushed s)) as [P|P]; [left|right; exact P].
+      pose proof (q_seq s O) as Q. rewrite LE in Q. cbn in Q. rewrite app_nil_r in Q. rewrite in_rev, <- Q, <- in_rev. exact P. }
+    destruct (kinds s i) eqn:K.
+    + destruct (q_barriers s O i Ai K) as [F|(t & L & _)]; [exact F|congruence].
+    + destruct (q_readers s O i Ai K) as [F|[X|(t & [X|[X _]])]]; [exact F| | |].
+      * rewrite Rq0 in X. destruct X.
+      * rewrite AI in X. discriminate.
+      * rewrite AI in X. discriminate.
+  - cbv zeta. pose proof (g_wf _ _ _ G) as Wf. pose proof Wf as Wf'. unfold wfr in Wf'.
+    rewrite (g_enc _ _ _ G), dec_enc by exact Wf.
+    pose proof (g_owner _ _ _ G) as Ho. rewrite LN in Ho. pose proof (g_enq _ _ _ G) as [He _]. rewrite R0, KN in He.
+    pose proof (g_dw _ _ _ G) as [_ DN]. destruct (DN LN) as [Dw0 Bm0]. pose proof (g_ib _ _ _ G) as Hib. rewrite Bm0 in Hib.
+    pose proof (g_pbU _ _ _ G LN) as HpU. pose proof (g_wq _ _ _ G) as Hwq. rewrite U0, Dw0 in Hwq.
+    assert (P0 : f_pb r = 0) by (destruct (Z.eq_dec (f_pb r) 1) as [E|E]; [specialize (HpU E); lia|lia]). rewrite P0 in Hwq.
+    assert (D0 : f_d r = 0).
+    { destruct (Z.eq_dec (f_d r) 1) as [E|E]; [|lia]. exfalso.
+      destruct (k_dirty s H3) as [X|[X|[X|X]]]; [rewrite (dirty_st s r (g_enc _ _ _ G) Wf); exact E|contradiction|lia|contradiction|lia]. }
+    repeat split; try assumption; lia.
+Qed.
+
+(* the hypotheses of the theorem are satisfiable after real work: the run of ordering_nonvacuous (two sync readers, a barrier
+   pushed behind them, an async item behind the barrier; width 4) continued until nothing moves *)
+Definition ex_acts5 : list action := ex_acts4 ++ repeat (AStep 7) 2 ++ repeat (AStep 5) 5.
+Lemma drained_nonvacuous :
+  exists s, reach 4 s /\ (forall t, resting (pcs s t)) /\ (forall t, valid_tid t -> gstep 4 s t = None) /\ rootq s = 0 /\ rq s = [] /\
+            nextid s = 4 /\ finished s = [3; 2; 1; 0] /\ st s = st (init_state 4).
+Proof.
+  destruct (run 4 (init_state 4) ex_acts5) as [s|] eqn:E; [|vm_compute in E; discriminate].
+  exists s. split.
+  - apply (run_reach 4 ex_acts5 (init_state 4) s); [apply reach_init; reflexivity | vm_compute; reflexivity | exact E].
+  - vm_compute in E.
+    assert (AI : forall t, pcs s t = Idle).
+    { injection E as <-. intros t. cbn. repeat (match goal with |- context [if ?c then _ else _] => destruct c end); reflexivity. }
+    split; [intros t; left; apply AI|]. split; [intros t _; unfold gstep; rewrite AI; reflexivity|].
+    injection E as <-. repeat split; reflexivity.
+Qed.
+
+(* ---- every program point other than the wait of a sync call has an enabled step ---- *)
+(* the drainer at the head test has a head: only the lock owner takes items off the list *)
+Definition at_head (p : pc) : bool := match p with W_head _ _ => true | _ => false end.
+
+Lemma lst_step W s t s' : gstep W s t = Some s' -> (lst s <> [] -> lst s' <> []) \/ owns (pcs s t) = true.
+Proof.
+  intros Hs. unfold gstep in Hs. destruct (pcs s t) eqn:Hpc; lazy beta iota zeta in Hs; try discriminate Hs.
+  all: try (right; reflexivity).
+  all: gcases Hs; subst s'.
+  all: left; gcbn; try (intros X; exact X).
+  all: intros _ X; destruct (lst s); discriminate X.
+Qed.
+
+Lemma lst_begin s t c s' : begin s t c = Some s' -> lst s' = lst s.
+Proof. intros Hs. unfold begin in Hs. destruct (pcs s t); try discriminate Hs. destruct c; gcases Hs; subst s'; reflexivity. Qed.
+
+Definition Inv4 (s : gst) : Prop := forall t, at_head (pcs s t) = true -> lst s <> [].
+
+Lemma inv4_reach W s : 2 <= W <= 4094 -> reach W s -> Inv W s /\ Inv4 s.
+Proof.
+  intros HW. apply (invariant_lift _ _ (fun s => Inv W s /\ Inv4 s)).
+  - intros s0 ->. split; [apply Inv_init; exact HW|]. intros t X. discriminate X.
+  - intros s0 a s1 [HI H4] Hs. split; [eapply step_preserves; eassumption|]. intros u Hu.
+    destruct a as [t c|t]; destruct Hs as [Vt Hs].
+    + rewrite (lst_begin s0 t c s1 Hs). destruct (Z.eq_dec u t) as [->|Ne].
+      * exfalso. unfold begin in Hs. destruct (pcs s0 t); try discriminate Hs. destruct c; gcases Hs; subst s1; gcbn in Hu; rewrite upd_same in Hu; discriminate Hu.
+      * rewrite (begin_frame s0 t c s1 u Hs Ne) in Hu. exact (H4 u Hu).
+    + destruct (Z.eq_dec u t) as [->|Ne].
+      * (* t itself arrives at (or stays away from) the head test *)
+        unfold gstep in Hs. destruct (pcs s0 t) eqn:Hpc; lazy beta iota zeta in Hs; try discriminate Hs.
+        all: gcases Hs; subst s1; gcbn in Hu; rewrite upd_same in Hu; gcbn.
+        all: try discriminate Hu.
+        all: try (destruct k; discriminate Hu).
+        all: try (unfold dn_cont in Hu; repeat (match type of Hu with context [if ?c then _ else _] => destruct c end); discriminate Hu).
+        all: try (repeat (match type of Hu with context [if ?c then _ else _] => destruct c eqn:? end); try discriminate Hu).
+        all: try (intros X; match goal with H : is_nil (lst _) = false |- _ => rewrite X in H; discriminate H end).
+        all: try (inv_pc HI t Hpc).
+        all: idtac.
+        -- destruct (lst s0) as [|x l]; [discriminate Hu|]. repeat (match type of Hu with context [if ?c then _ else _] => destruct c end); discriminate Hu.
+        -- destruct Hi as (_ & _ & _ & _ & Hb). unfold head_bar in Hb. destruct (lst s0); [contradiction|discriminate].
+        -- destruct Hi as (_ & _ & Hb). unfold head_nb in Hb. destruct (lst s0); [contradiction|discriminate].
+      * rewrite (gstep_frame W s0 t s1 u Hs Ne) in Hu. pose proof (H4 u Hu) as NE.
+        destruct (lst_step W s0 t s1 Hs) as [X|X]; [exact (X NE)|]. exfalso.
+        assert (Ou : owns (pcs s0 u) = true) by (destruct (pcs s0 u); try discriminate Hu; reflexivity).
+        exact (other_owner_absurd W s0 t u HI X Ne Ou).
+Qed.
+
+
+Ltac triv := lazy beta iota zeta;
+  repeat (match goal with
+          | |- context [if ?c then _ else _] => destruct c
+          | |- context [match ?l with [] => _ | _ :: _ => _ end] => destruct l
+          end; lazy beta iota zeta); eexists; reflexivity.
+
+Theorem nonresting_enabled W s t : 2 <= W <= 4094 -> reach W s -> valid_tid t -> ~ resting (pcs s t) ->
+  exists s', gstep W s t = Some s'.
+Proof.
+  intros HW R Vt NR. destruct (inv3_reach W s HW R) as (HI & H2 & H3). destruct (inv4_reach W s HW R) as [_ H4].
+  pose proof (k_qos s H3 t) as Q. pose proof (H4 t) as Hh.
+  unfold gstep. destruct (pcs s t) eqn:Hpc; cbn [qos_ok at_head] in Q, Hh.
+  all: try (exfalso; apply NR; left; reflexivity).
+  all: try (exfalso; apply NR; right; eauto; fail).
+  all: try (solve [triv]).
+  all: pose proof HI as (_ & (r & G) & T); pose proof (g_wf _ _ _ G) as Wf; pose proof Wf as Wf'; unfold wfr in Wf'.
+  - (* S_rsv *) rewrite (g_enc _ _ _ G), reserve_sync_fields by (assumption || lia). triv.
+  - (* NBC *) destruct (T t) as [T1 _ _ _ _ _]. rewrite Hpc in T1. cbn [holds] in T1.
+    assert (Hin : In t (holders s)) by (apply T1; auto).
+    assert (U1 : 1 <= Z.of_nat (length (holders s))) by (destruct (holders s); [destruct Hin | cbn [length]; lia]).
+    pose proof (g_dw _ _ _ G) as [D0 DN]. pose proof (g_wq _ _ _ G) as Hwq.
+    assert (Hq1 : 1 <= f_wq r) by (unfold U in Hwq; nia).
+    rewrite (g_enc _ _ _ G), nbc_fields by (assumption || lia). triv.
+  - (* B_acq *) rewrite (g_enc _ _ _ G), acquire_barrier_fields by (assumption || lia || (unfold valid_tid in Vt; lia)). triv.
+  - (* BC_class *) inv_pc HI t Hpc. destruct Hi as (Bm & He).
+    destruct (g_bm _ _ _ G Bm) as (_ & Dw & U0 & P0). pose proof (g_wq _ _ _ G) as Hwq. rewrite Dw, U0, P0 in Hwq.
+    pose proof (g_ib _ _ _ G) as Hib. rewrite Bm in Hib. pose proof (g_hi _ _ _ G) as Hhi.
+    rewrite (g_enc _ _ _ G). unfold IN_BARRIER, INTERVAL. destruct He as [->| ->].
+    + cbn [Z.eqb]. rewrite class_complete_none_fields by (assumption || lia). triv.
+    + change (ENQUEUED =? 0) with false. cbv iota. unfold ENQUEUED. rewrite class_complete_enq_fields by (assumption || lia). triv.
+  - (* DBW_pop *) inv_pc HI t Hpc. destruct Hi as (_ & _ & Hb & _). unfold head_bar in Hb. destruct (lst s); [contradiction|eexists; reflexivity].
+  - (* DBW_xfer *) inv_pc HI t Hpc. destruct Hi as (Bm & He & Vu & _).
+    pose proof (g_enq _ _ _ G) as [Henq Hrq]. pose proof (g_role _ _ _ G) as Hro.
+    rewrite (g_enc _ _ _ G). unfold f_dispatch_lock_value_from_tid. destruct He as [->| ->].
+    + rewrite barrier_waiter_fields0 by (assumption || lia || (unfold valid_tid in Vu; lia)). triv.
+    + destruct (T t) as [_ _ T3 _ _ _]. rewrite Hpc in T3. cbn [toks] in T3.
+      assert (Tk : tokh s = Some t) by (apply T3; reflexivity). rewrite Tk in Henq.
+      unfold ENQUEUED. rewrite barrier_waiter_fields1 by (assumption || lia || (unfold valid_tid in Vu; lia)). triv.
+  - (* DN_loop *) inv_pc HI t Hpc. destruct Hi as (_ & _ & _ & _ & Hb). unfold head_nb in Hb. destruct (lst s); [contradiction|eexists; reflexivity].
+  - (* DN_acq *) rewrite (g_enc _ _ _ G), acquire_async_fields by exact Wf. triv.
+  - (* DN_pop *) inv_pc HI t Hpc. destruct Hi as (_ & _ & _ & _ & Hb). unfold head_nb in Hb. destruct (lst s); [contradiction|triv].
+  - (* DN_fin *) inv_pc HI t Hpc. destruct Hi as (Bm & Dw & O & P0 & Hnx & Hn1 & Hn2).
+    rewrite (pb_of W s r G) in P0.
+    pose proof (g_wq _ _ _ G) as Hwq. rewrite Dw, P0 in Hwq. pose proof (CLane_proofs.U_nonneg s) as Un.
+    pose proof (g_bound _ _ _ G) as Hbd. rewrite Dw in Hbd.
+    pose proof (g_ib _ _ _ G) as Hib. rewrite Bm in Hib. pose proof (g_hi _ _ _ G) as Hhi.
+    rewrite (g_enc _ _ _ G). unfold INTERVAL.
+    set (pbn := if nx =? 2 then 1 else 0) in *.
+    set (r0 := mk (f_owner r) (f_tr r) (f_enq r) (f_mq r) (f_ov r) (f_role r) (f_em r) (f_d r) pbn
+                  (4096 - W + U s + (W - 1) * pbn) (f_ib r) (f_hi r)).
+    assert (W0 : wfr r0) by (subst r0 pbn; destruct (nx =? 2); wf_mk).
+    pose proof W0 as W0'. unfold wfr in W0'.
+    assert (E0 : u64 (enc r - (if nx =? 2 then f_dispatch_queue_adjust_owned 0 (ow * 2199023255552) 1 W 1 else ow * 2199023255552)) = enc r0).
+    { subst r0 pbn. destruct (Z.eqb_spec nx 2) as [E2|E2].
+      - rewrite sub_adjusted by (assumption || lia). f_equal. unfold mk. f_equal; lia.
+      - replace (enc r - ow * 2199023255552) with (enc r + (- ow) * 2199023255552) by lia.
+        rewrite add_wq by (assumption || lia). unfold set_wq. f_equal. unfold mk. f_equal; lia. }
+    rewrite (drain_nb_fields r r0); try assumption; try lia;
+      try (subst r0; cbn [mk f_ib f_hi f_pb f_wq]; lia); try (unfold valid_tid in Vt; lia).
+    triv.
+  - (* A_acq *) rewrite (g_enc _ _ _ G), acquire_async_fields by exact Wf. triv.
+  - (* A_wake *) destruct Q as [Q1 Q2]. assert (Qb : (0 <=? q) && (q <? 8) = true) by (apply andb_true_iff; split; [apply Z.leb_le|apply Z.ltb_lt]; lia).
+    rewrite Qb. rewrite (g_enc _ _ _ G). unfold ENQUEUED. destruct Q2 as [-> | ->].
+    + rewrite wakeup_nodirty_fields by (assumption || reflexivity). triv.
+    + rewrite wakeup_fields by (assumption || reflexivity). triv.
+  - (* SW_rmw *) pose proof (g_role _ _ _ G) as Hro. rewrite (g_enc _ _ _ G). unfold INTERVAL, FULL_BIT, IN_BARRIER.
+    rewrite push_waiter_fields by (assumption || lia || (unfold valid_tid in Vt; lia)). triv.
+  - (* W_lock *) rewrite (g_enc _ _ _ G), lock_fields_w by (assumption || lia || (unfold valid_tid in Vt; lia)). triv.
+  - (* W_head *) destruct (lst s); [exfalso; apply Hh; reflexivity|eexists; reflexivity].
+  - (* W_upg *) inv_pc HI t Hpc. destruct Hi as (E & Bm & Ow & Pd & Hb).
+    pose proof (dw_range W s r G) as Dr. rewrite (pb_of W s r G) in Pd.
+    pose proof (g_wq _ _ _ G) as Hwq. pose proof (CLane_proofs.U_nonneg s) as Un. pose proof (g_bound _ _ _ G) as Hbd.
+    pose proof (g_ib _ _ _ G) as Hib. rewrite Bm in Hib. pose proof (g_hi _ _ _ G) as Hhi.
+    assert (Uq : upg_wq r (dw s) W = 4095 + U s).
+    { unfold upg_wq. destruct (Z.eqb_spec (f_pb r) 1) as [P|P].
+      - rewrite P in Hwq. rewrite (Pd P) in *. lia.
+      - assert (P0 : f_pb r = 0) by lia. rewrite P0 in Hwq. lia. }
+    rewrite (g_enc _ _ _ G). subst owned. unfold INTERVAL. rewrite upgrade_fields by (assumption || lia). triv.
+  - (* W_acq *) rewrite (g_enc _ _ _ G), acquire_async_fields by exact Wf. triv.
+  - (* W_popn *) inv_pc HI t Hpc. destruct Hi as (_ & _ & _ & _ & _ & Hb). unfold head_nb in Hb. destruct (lst s); [contradiction|triv].
+  - (* W_popb *) inv_pc HI t Hpc. destruct Hi as (_ & _ & Hb). unfold head_bar in Hb. destruct (lst s); [contradiction|eexists; reflexivity].
+  - (* W_unlock *) inv_pc HI t Hpc. destruct Hi as (Hop & HpU).
+    pose proof (g_enq _ _ _ G) as [Henq Hrq]. pose proof (g_hi _ _ _ G) as Hhi.
+    pose proof (g_wq _ _ _ G) as Hwq. pose proof (g_ib _ _ _ G) as Hib. pose proof (CLane_proofs.U_nonneg s) as Un.
+    pose proof (dw_range W s r G) as Dr.
+    destruct (T t) as [_ _ T3 _ _ _]. rewrite Hpc in T3. cbn [toks] in T3.
+    assert (Tk : tokh s = Some t) by (apply T3; reflexivity). rewrite Tk in Henq. assert (E1 : f_enq r = 1) by lia.
+    assert (Sub : exists r0, wfr r0 /\ u64 (enc r - op) = enc r0).
+    { destruct Hop as (d & b & -> & Hd & [(-> & Bm & ->)|(-> & Bm & -> & Pd)]).
+      - destruct (g_bm _ _ _ G Bm) as (_ & Dw & U0 & P0). rewrite Bm in Hib. rewrite Dw, U0, P0 in Hwq.
+        exists (mk (f_owner r) (f_tr r) 0 (f_mq r) (f_ov r) (f_role r) (f_em r) (f_d r) (f_pb r) (4096 - W) 0 (f_hi r)).
+        split; [wf_mk|].
+        rewrite !enc_linear. unfold mk, ENQUEUED, INTERVAL, IN_BARRIER. cbn [f_owner f_tr f_enq f_mq f_ov f_role f_em f_d f_pb f_wq f_ib f_hi].
+        rewrite E1, Hib. rewrite u64_id'' by lia. lia.
+      - rewrite Bm in Hib.
+        exists (mk (f_owner r) (f_tr r) 0 (f_mq r) (f_ov r) (f_role r) (f_em r) (f_d r) (f_pb r) (f_wq r - dw s) 0 (f_hi r)).
+        split; [wf_mk|].
+        rewrite !enc_linear. unfold mk, ENQUEUED, INTERVAL, IN_BARRIER. cbn [f_owner f_tr f_enq f_mq f_ov f_role f_em f_d f_pb f_wq f_ib f_hi].
+        rewrite E1, Hib. rewrite u64_id'' by lia. lia. }
+    destruct Sub as (r0 & W0 & E0).
+    rewrite (g_enc _ _ _ G). rewrite (unlock_fields_w r r0) by assumption. triv.
+Qed.
+
+(* hence: when no thread at all can take a step (and the root queue holds neither the lane nor a redirected item),
+   everything is drained *)
+Theorem terminal_state_is_drained W s : 2 <= W <= 4094 -> reach W s ->
+  (forall t, valid_tid t -> gstep W s t = None) -> rootq s = 0 -> rq s = [] ->
+  lst s = [] /\ (forall t, pcs s t = Idle) /\ lockh s = None /\ holders s = [] /\ tokh s = None /\
+  (forall i, 0 <= i < nextid s -> In i (finished s)) /\
+  (let r := dec (st s) in f_owner r = 0 /\ f_enq r = 0 /\ f_d r = 0 /\ f_pb r = 0 /\ f_ib r = 0 /\ f_wq r = 4096 - W).
+Proof.
+  intros HW R Hstuck R0 Rq0. apply (stuck_state_is_drained W s HW R); try assumption.
+  intros t. assert (D : resting (pcs s t) \/ ~ resting (pcs s t)).
+  { unfold resting. destruct (pcs s t); try (left; left; reflexivity); try (left; right; eauto; fail);
+      right; intros [X|(i0 & b0 & X)]; discriminate X. }
+  destruct D as [D|D]; [exact D|]. exfalso.
+  assert (Vt : valid_tid t).
+  { apply (nonidle_valid W s R). intros X. apply D. left. exact X. }
+  destruct (nonresting_enabled W s t HW R Vt D) as (s1 & E). rewrite (Hstuck t Vt) in E. discriminate.
 Qed.
